@@ -68,9 +68,8 @@ GateOK(g, n) == LET M == DenseGate(g, n)  Md == GDagger(M)  s == <<GScaleOf(g), 
       /\ GMatMul(M, Md) = GMatScale(s, GIdent(2^n))
 \* ---- circuits: gates g_1..g_m appended in this order, U = g_m ... g_1.
 \* numqi's CliffordCircuit represents  P |-> U^dagger P U;  appending g gives  P |-> U^dagger (g^dagger P g) U
-RECURSIVE CircuitT(_, _)
-CircuitT(gs, n) == IF gs = <<>> THEN IdT(n) ELSE Compose(CircuitT(SubSeq(gs, 1, Len(gs) - 1), n), DaggerT(gs[Len(gs)], n))
+\* (a left fold: the tableau after the first j gates composed with the dagger tableau of gate j+1)
+CircuitT(gs, n) == FoldLeft(LAMBDA T, g : Compose(T, DaggerT(g, n)), IdT(n), gs)
 Max2(a, b) == IF a > b THEN a ELSE b
-RECURSIVE NumQubit(_)
-NumQubit(gs) == IF gs = <<>> THEN 0 ELSE Max2(NumQubit(Tail(gs)), Max2(Head(gs).a, Head(gs).b))
+NumQubit(gs) == FoldLeft(LAMBDA m, g : Max2(m, Max2(g.a, g.b)), 0, gs)
 =============================================================================
